@@ -80,6 +80,20 @@ def gen(rng, tier):
             else:
                 cs.append(Case("verify_ph %s %s %s" % (hx(pkm), hx(sig), hx(msg)), cls="verify_ph/torsion-forgery", expect="err",
                                meta={"why": "a pre-hashed signature whose R has small order was accepted"}))
+    # signatures made with the secret scalar but with a torsion component added to R or to A: mixed-order points pass every
+    # small-order check; only the exact (cofactorless) verification equation tells them apart
+    for i in range(40 if tier == "quick" else 400):
+        pure = i % 3 != 2
+        pkm, msg, sig, strict = refs.mixed_order_sig(rng, where=("R" if i % 2 == 0 else "A"), pure=pure)
+        exp = "ok" if strict else "err"
+        why = "a signature with a torsion component in %s: the cofactorless equation %s it" % ("R" if i % 2 == 0 else "A", "accepts" if strict else "rejects")
+        if pure:
+            cs.append(Case("verify %s %s %s" % (hx(pkm), hx(msg), hx(sig)), cls="verify/mixed-order-%s" % ("R" if i % 2 == 0 else "A"), expect=exp, meta={"why": why}))
+        else:
+            cs.append(Case("verify_ph %s %s %s" % (hx(pkm), hx(sig), hx(msg)), cls="verify_ph/mixed-order-%s" % ("R" if i % 2 == 0 else "A"), expect=exp, meta={"why": why}))
+    # seeded key pairs through every constructor (incl. from_secret_key with an inconsistent public half)
+    for i in range(12 if tier == "quick" else 100):
+        cs.append(Case("sign_seed_keypair %s" % hx(rbytes(rng, 32)), cls="sign_seed_keypair"))
     # a small-order public key in ANY of its encodings (canonical, non-canonical y ≥ p, "negative zero" sign bit) must be
     # refused even when the signature satisfies the group equation for it (e.g. A = identity: (R, S) = ([s]B, s) for every message)
     enc = []
